@@ -8,6 +8,7 @@ INVARIANTS
   OneOutcome
   RoundTrip
   RegistryClosure
+  PrefixAgnostic
   CipherValueLength
   Total
   RejectsMalformed
